@@ -213,9 +213,11 @@ func (b *builder) base(o baseOpt) {
 			if o.badDevAddrs && r.Intn(8) == 0 {
 				// the same controller listed twice: the later entry is the one that counts
 				d2 := d
-				d2.Name = d.Name + " (again)"
-				d2.Addr = pick(r, "", fmt.Sprintf("%s:%d", k.ip, k.port), b.prefix+".200:60000", k.ip+":60001")
-				d2.Protocol = pick(r, "udp", "tcp")
+				if r.Intn(3) > 0 {
+					d2.Name = d.Name + " (again)"
+					d2.Addr = pick(r, "", fmt.Sprintf("%s:%d", k.ip, k.port), b.prefix+".200:60000", k.ip+":60001")
+					d2.Protocol = pick(r, "udp", "tcp")
+				} // else: the very same entry a second time
 				c.Devices = append(c.Devices, d2)
 			}
 		}
@@ -1518,7 +1520,7 @@ func genC10(b *builder) {
 func genC17(b *builder) {
 	r := b.r
 	sc := b.sc
-	b.base(baseOpt{minCtl: 1, maxCtl: 4, maxClients: 2, directed: 2, extraEndpoints: r.Intn(2) == 0})
+	b.base(baseOpt{minCtl: 1, maxCtl: 4, maxClients: 2, directed: 2, extraEndpoints: r.Intn(2) == 0, badDevAddrs: r.Intn(4) == 0})
 	tk := engine.Task{}
 	if r.Intn(4) > 0 {
 		tk.Steps = append(tk.Steps, engine.Step{Kind: "mutate-config", Client: 0})
